@@ -127,6 +127,18 @@ Theorem c19_with_unit_preserves_quantity : forall (a b : tag) (x : f64) dims fl,
 Proof. exact with_unit_preserves_quantity. Qed.
 Print Assumptions c19_with_unit_preserves_quantity.
 
+(* ... and for every kind of observation (an unsigned integer up to 2^53, a float, a repeated total): the number it
+   carries is preserved as a quantity, its occurrences are kept *)
+Theorem c19_with_unit_preserves_quantity_any_kind : forall (a b : tag) (o : obs) dims fl,
+  convertible a b = true -> unitless_source a = false -> obs_moderate o ->
+  exists o' : obs,
+    write (WithUnit (Script a (VMetric [o] (tag_unit a) dims fl)) b) = VMetric [o'] (tag_unit b) dims fl /\
+    obs_occurrences o' = obs_occurrences o /\
+    (Rabs (obs_number o' * Q2R (phys (tag_unit b)) - obs_number o * Q2R (phys (tag_unit a)))
+      <= (bpow radix2 (-52) + bpow radix2 (-106)) * Rabs (obs_number o * Q2R (phys (tag_unit a))))%R.
+Proof. exact with_unit_preserves_quantity_any_kind. Qed.
+Print Assumptions c19_with_unit_preserves_quantity_any_kind.
+
 (* declaring a unit on a unitless value keeps every observation of every kind bit for bit *)
 Theorem c19_declare_unit_keeps_observations : forall (a b : tag) os dims fl,
   convertible a b = true -> unitless_source a = true ->
